@@ -618,6 +618,16 @@ class Verifier:
             return py_eq(a, b)
         if isinstance(op, ast.NotEq):
             return z3.Not(py_eq(a, b))
+        from .values import MRatio
+        if isinstance(op, (ast.Lt, ast.LtE, ast.Gt, ast.GtE)) and (isinstance(a, MRatio) or isinstance(b, MRatio)):
+            # exact comparison of an integer with a ratio of positive denominator
+            if isinstance(a, MRatio) and isinstance(b, SV) and b.t == INT:
+                l, r = a.num, b.z * a.den
+            elif isinstance(b, MRatio) and isinstance(a, SV) and a.t == INT:
+                l, r = a.z * b.den, b.num
+            else:
+                raise Unsupported('comparison with a ratio')
+            return {ast.Lt: l < r, ast.LtE: l <= r, ast.Gt: l > r, ast.GtE: l >= r}[type(op)]
         if isinstance(op, (ast.Lt, ast.LtE, ast.Gt, ast.GtE)):
             a = self.nn(st, a, node, 'comparison operand')
             b = self.nn(st, b, node, 'comparison operand')
@@ -762,6 +772,11 @@ class Verifier:
             if ta == PATH:
                 from . import paths
                 return paths.join(a, b)
+            if ta == INT and tb == INT:
+                from .values import MRatio
+                self.may_raise(st, b.z != 0, 'ZeroDivisionError', 'division by zero', node)
+                self.oblige(st, b.z > 0, 'call-pre', 'true division is modelled for a positive divisor only', node)
+                return MRatio(a.z, b.z)
             raise Unsupported('/ operands')
         if isinstance(op, ast.BitOr):
             if ta == BOOL and tb == BOOL:
